@@ -236,20 +236,74 @@ FileExplains(cfg, s, e) ==
     /\ Explains(cfg, s[w], e)
 FileAfter(cfg, s, e) == LET w == e.c.a.who + 1 IN [s EXCEPT ![w] = After(cfg, s[w], e)]
 
+\* ------------------------------------------- an index that promises more than the file holds
+\* cfg = [cls = "lying", recs (what the file really holds), file, claim]: the .fai row of record i says
+\* claim[i] bases (4 limbs base 10^6, most significant first; up to u64::MAX) with the true offset and line
+\* geometry; the lying record is the last one of the file. Claim of the property: a read whose interval the
+\* index admits but the file does not hold ends in an ERROR (no panic, no abort, no short data as success);
+\* intervals inside the real record are served exactly, also after such errors.
+IsLying(cfg) == cfg.cls = "lying"
+LySel0 == [f |-> 0, start |-> 0, stop |-> <<0, 0, 0, 0>>]
+LimbsLE(a, b) ==                                  \* lexicographic = numeric (limbs < 10^6)
+    \/ a[1] < b[1]
+    \/ a[1] = b[1] /\ a[2] < b[2]
+    \/ a[1] = b[1] /\ a[2] = b[2] /\ a[3] < b[3]
+    \/ a[1] = b[1] /\ a[2] = b[2] /\ a[3] = b[3] /\ a[4] <= b[4]
+Small(n) == <<0, 0, 0, n>>
+LyAdmitted(cfg, s) == s.f # 0 /\ LimbsLE(s.stop, cfg.claim[s.f]) /\ LimbsLE(Small(s.start), s.stop)
+LyHeld(cfg, s) == LimbsLE(s.stop, Small(Len(cfg.recs[s.f].seq)))
+\* the bytes the index geometry points at exist in the file although they lie behind the real record (line
+\* terminators pass as bases when the real last line is shorter than the promised width): nothing can tell
+\* the reader, so only "no panic" is required there
+LyBytesExist(cfg, s) ==
+    /\ s.stop[1] = 0 /\ s.stop[2] = 0 /\ s.stop[3] = 0
+    /\ NeedEnd(FaiOf(cfg.recs)[s.f], s.start, s.stop[4]) <= Len(cfg.file)
+
+LyExplains(cfg, s, e) ==
+    LET c == e.c  r == e.r  a == e.c.a IN
+    CASE c.op = "open" -> r.st = "ok" /\ cfg.file = FileOf(cfg.recs) /\ Len(cfg.claim) = Len(cfg.recs)
+      [] c.op \in {"fetch_big", "fetch_all_rid"} -> r.st = "ok" /\ a.rid + 1 \in 1..Len(cfg.recs) /\ r.ok = 1
+      [] c.op = "read" ->
+           /\ r.st = "ok"
+           /\ IF LyAdmitted(cfg, s) /\ LyHeld(cfg, s)
+              THEN r.ok = 1 /\ r.seq = Expected(cfg.recs[s.f].seq, s.start, s.stop[4])
+              ELSE IF LyAdmitted(cfg, s) /\ LyBytesExist(cfg, s) THEN TRUE
+              ELSE r.ok = 0                                         \* refused, or the file ends before `stop`
+      [] c.op = "read_iter" ->
+           /\ r.st = "ok" /\ r.capped = 0
+           /\ IF ~LyAdmitted(cfg, s) THEN r.ok = 0
+              ELSE IF LyHeld(cfg, s)
+                   THEN r.ok = 1 /\ r.ierr = 0 /\ r.ended = 1
+                        /\ r.items = Expected(cfg.recs[s.f].seq, s.start, s.stop[4])
+                   ELSE IF LyBytesExist(cfg, s) THEN r.ok = 1
+                   ELSE \* an error item, then the end. What was yielded before it is not judged: with a lying
+                        \* length the last line is shorter than the index says, so its terminator may pass as a base
+                        r.ok = 1 /\ r.ierr = 1 /\ r.after = 0 /\ r.ended = 1
+      [] OTHER -> FALSE
+LyAfter(cfg, s, e) ==
+    LET a == e.c.a IN
+    CASE e.c.op = "fetch_big"     -> [f |-> a.rid + 1, start |-> a.start, stop |-> a.stop]
+      [] e.c.op = "fetch_all_rid" -> [f |-> a.rid + 1, start |-> 0, stop |-> cfg.claim[a.rid + 1]]
+      [] OTHER -> s
+
 Init == /\ run \in 1..Len(Rec) /\ idx = 0 /\ ok = TRUE
         /\ st = IF IsBig(Rec[run].cfg) THEN BigSel0
+                ELSE IF IsLying(Rec[run].cfg) THEN LySel0
                 ELSE IF IsFileCls(Rec[run].cfg) THEN FileSel0 ELSE Sel(MInit, FALSE)
 Next ==
     /\ ok /\ idx < Len(Rec[run].ev)
     /\ LET e    == Rec[run].ev[idx + 1]
            cfg  == Rec[run].cfg
            good == IF IsBig(cfg) THEN BigExplains(cfg, st, e)
+                   ELSE IF IsLying(cfg) THEN LyExplains(cfg, st, e)
                    ELSE IF IsFileCls(cfg) THEN FileExplains(cfg, st, e) ELSE Explains(cfg, st, e)
        IN  /\ ok' = good
            /\ st' = IF ~good THEN st ELSE IF IsBig(cfg) THEN BigAfter(st, e)
+                    ELSE IF IsLying(cfg) THEN LyAfter(cfg, st, e)
                     ELSE IF IsFileCls(cfg) THEN FileAfter(cfg, st, e) ELSE After(cfg, st, e)
            /\ IF good
-              THEN (IF IsBig(cfg) \/ IsFileCls(cfg) \/ Exact(cfg, st, e) THEN TRUE ELSE PrintT(<<"DRIFT", run, idx + 1>>))
+              THEN (IF IsBig(cfg) \/ IsLying(cfg) \/ IsFileCls(cfg) \/ Exact(cfg, st, e) THEN TRUE
+                    ELSE PrintT(<<"DRIFT", run, idx + 1>>))
               ELSE PrintT(<<"REJECT", run, idx + 1>>)
     /\ idx' = idx + 1
     /\ UNCHANGED run
